@@ -221,6 +221,32 @@ def run_property(prop, build_tasks, level="proof", tier="quick", seed=0, assumpt
             outs = pool.map(_run_task, range(len(tasks)), chunksize=1)
     else:
         outs = [_run_task(i) for i in range(len(tasks))]
+    # closure: the callee contracts this property's tasks relied on are discharged in this same run (engine/closure.py)
+    closure_note = None
+    if not os.environ.get("VERIF_ONLY") and not os.environ.get("VERIF_NO_CLOSURE"):
+        from . import closure as closuremod
+        done, added, unknown_all = set(), [], []
+        batch_outs, all_tasks = outs, list(tasks)
+        for _round in range(4):
+            new, unknown = closuremod.missing_tasks(ctx, all_tasks, batch_outs, done)
+            unknown_all += unknown
+            if not new:
+                break
+            _TASKS = new
+            if len(new) > 1:
+                mpctx = multiprocessing.get_context("fork")
+                with mpctx.Pool(min(16, len(new))) as pool:
+                    batch_outs = pool.map(_run_task, range(len(new)), chunksize=1)
+            else:
+                batch_outs = [_run_task(0)]
+            outs = outs + batch_outs
+            all_tasks += new
+            added += [t.name for t in new]
+        _TASKS = tasks
+        closure_note = "closure: %d callee-contract tasks added (%s)%s" % (len(added), ", ".join(added[:60]),
+                       ("; used callee contracts with no function task in any property: %s" % sorted(set(unknown_all))) if unknown_all else "")
+        if outs:
+            outs[0].setdefault("notes", []).append(closure_note)
     extra2 = extra_cov
     if tier == "thorough":
         from . import thorough
